@@ -278,6 +278,10 @@ func ruleGrammarGuards(c *Ctx) {
 	if f := c.A.Func("parseCmd"); f != nil {
 		for _, a := range acceptingReturns(f) {
 			r := a.(*ssa.Return)
+			// verbs are case-insensitive: what parseCmd hands to the dispatcher is upper-cased (or a constant)
+			vd := describe(returnedValues(r)[0])
+			_, isK := returnedValues(r)[0].(*ssa.Const)
+			R.Ob(c.siteKey(a, "verb is upper-cased"), c.P.InstrPos(a), isK || strings.HasPrefix(vd, "strings.ToUpper("), "parseCmd returns the verb as "+vd+": a lower-case command (mail from:) is not recognised")
 			if k, isK := r.Results[1].(*ssa.Const); isK && k.Value != nil {
 				continue // no argument
 			}
